@@ -691,3 +691,55 @@ Proof.
     now apply (specs_of_err fields md info ErrValue Hi Hne Hm specs).
   - now rewrite (dedup_err_class _ _ _ E).
 Qed.
+
+(* ---------------------------------------------------------------------------------------------- *)
+(* from the computed slot table to the region statement                                           *)
+(* ---------------------------------------------------------------------------------------------- *)
+(* what C14 says about field f in backend be: one slot, at the documented place; the file holding it is
+   (text before) ++ (the query's own items, wrapped) ++ (every line of f of every kept block, block order then
+   line order, each wrapped by the static text a..b of the loop body, verbatim) ++ (text after); and nothing
+   else in the package depends on the lines of f *)
+Definition field_region_spec (c : config) (be : backend) (places : list (string * place)) (f : string) : Prop :=
+  exists file key s qs a b p,
+    slot_of c be f = Some (file, key, s, qs)
+    /\ lookup f places = Some p /\ place_ok p file s = true
+    /\ wrap_parts s = Some (a, b)
+    /\ forall q blocks,
+         render_file c be file q blocks =
+           Some (render_nodes (info c be q blocks) [] (sl_pre s)
+                 +++ concat_str (map (fun v => a +++ v +++ b) (flat_map q qs))
+                 +++ concat_str (flat_map (fun blk => map (fun v => a +++ v +++ b) (get f blk)) blocks)
+                 +++ render_nodes (info c be q blocks) [] (sl_post s))
+         /\ rest_independent c be q f file s blocks.
+
+Lemma region_of_field : forall c be places f,
+  field_placed c be places f = true -> field_region_spec c be places f.
+Proof.
+  intros c be places f H. unfold field_placed in H.
+  destruct (lookup f places) as [p|] eqn:Ep; [|discriminate].
+  destruct (slot_of c be f) as [[[[file key] s] qs]|] eqn:Es; [|discriminate].
+  assert (Hw : exists a b, wrap_parts s = Some (a, b)).
+  { unfold place_ok in H. destruct (wrap_parts s) as [[a b]|]; [eauto | discriminate]. }
+  destruct Hw as [a [b Hw]].
+  exists file, key, s, qs, a, b, p.
+  split; [assumption|]. split; [assumption|]. split; [assumption|]. split; [assumption|].
+  intros q blocks. split.
+  - destruct (regions_generic c be f file key s qs Es q blocks) as [Hr _].
+    destruct (slot_of_inv _ _ _ _ _ _ _ Es) as (_ & _ & _ & _ & _ & _ & _ & _ & Hflat).
+    assert (Hwrap : forall v, wrap (sl_x s) (sl_body s) v = a +++ v +++ b).
+    { intros v. now apply wrap_parts_wrap. }
+    rewrite Hr. unfold region.
+    rewrite (map_ext _ _ Hwrap).
+    rewrite (flat_map_ext _ _ (fun blk => map_ext _ _ Hwrap (get f blk))).
+    reflexivity.
+  - now destruct (regions_generic c be f file key s qs Es q blocks) as [_ Hi].
+Qed.
+
+Lemma regions_of_table : forall c be places,
+  forallb (field_placed c be places) (c_fields c) = true ->
+  forall md blocks, dedup (c_fields c) md = OK blocks ->
+  forall f, In f (c_fields c) -> field_region_spec c be places f.
+Proof.
+  intros c be places H md blocks _ f Hin. apply region_of_field.
+  rewrite forallb_forall in H. now apply H.
+Qed.
